@@ -307,7 +307,9 @@ func loadReplayProject(dir string) (*gen.Project, error) {
 	return p, nil
 }
 
-func rngFor(c *core.Ctx, salt int64) *rand.Rand { return rand.New(rand.NewSource(c.Seed*1000003 + salt)) }
+func rngFor(c *core.Ctx, salt int64) *rand.Rand {
+	return rand.New(rand.NewSource(c.Seed*1000003 + salt))
+}
 
 // eventSummary renders the interesting scalar fields of an event.
 func eventSummary(e map[string]interface{}) string {
@@ -336,24 +338,24 @@ func dayText(v interface{}) string {
 
 // runTraceStats collects branch counters from the traces (evidence: what the runs actually reached).
 type runTraceStats struct {
-	mu             sync.Mutex
-	Days           int
-	SubSteps       int
-	MultiStepDays  int
-	MaxSteps       int
-	DrainFlowSteps int
-	UpwardBottom   int
-	Infiltration   int
-	Evaporation    int
-	OverwriteDays  int
-	GrowingDays    int
-	FailedRuns     int
-	Irrigations    int
-	Sowings        int
-	Harvests       int
-	Fertilisations int
-	Tillages       int
-	StageChanges   int
+	mu                          sync.Mutex
+	Days                        int
+	SubSteps                    int
+	MultiStepDays               int
+	MaxSteps                    int
+	DrainFlowSteps              int
+	UpwardBottom                int
+	Infiltration                int
+	Evaporation                 int
+	OverwriteDays               int
+	GrowingDays                 int
+	FailedRuns                  int
+	Irrigations                 int
+	Sowings                     int
+	Harvests                    int
+	Fertilisations              int
+	Tillages                    int
+	StageChanges                int
 	lastNdg, lastNtil, lastIntw int
 }
 
@@ -493,7 +495,10 @@ func validateConcat(c *core.Ctx, cases []*runCase, module, cfg string, chunk int
 			c.Machineryf("%v", err)
 			return
 		}
-		type span struct{ from, to int; rc *runCase }
+		type span struct {
+			from, to int
+			rc       *runCase
+		}
 		var spans []span
 		line := 0
 		for _, rc := range cases[lo:hi] {
@@ -584,4 +589,81 @@ func revalidateWithout(c *core.Ctx, rc *runCase, module, cfg string, drop []stri
 		return nil
 	}
 	return r[0]
+}
+
+// sysFamilies: the checks whose runs are also validated against the system specification (discrete control of a run).
+var sysFamilies = map[string]bool{"C04": true, "C05": true, "C09": true, "C10": true, "C16": true}
+
+// sysConformance validates up to max of the recorded runs against Trace_Sys: every event fires the action of
+// HermesRun.tla for that code block and the state the action predicts must equal the logged state; the result files
+// must hold the records the specification emitted. A run the specification cannot explain is reported as MODEL-DRIFT
+// (informational: the system specification is stronger than any listed property, the property verdicts are the
+// invariants of Trace_Run); on the unchanged tree there is none.
+func sysConformance(c *core.Ctx, cases []*runCase, max int) {
+	var sel []*runCase
+	for _, rc := range cases {
+		if rc.Events >= 3 && len(sel) < max {
+			sel = append(sel, rc)
+		}
+	}
+	var mu sync.Mutex
+	conform, drift := 0, 0
+	var firstDrift map[string]interface{}
+	parallel(len(sel), 8, func(i int) {
+		rc := sel[i]
+		run := c.TLC(core.TLCOpts{Module: "Trace_Sys", Cfg: "Trace_Sys.cfg", Kind: "trace-sys", Workers: 1, Timeout: 20 * time.Minute,
+			Files: map[string]string{"trace.ndjson": rc.Trace}, Heap: "4g"})
+		mu.Lock()
+		defer mu.Unlock()
+		switch {
+		case run.OK():
+			conform++
+		case run.IsViolation():
+			drift++
+			l, _ := run.AliasInt("l")
+			ph, _ := run.AliasStr("ph")
+			var m map[string]interface{}
+			json.Unmarshal([]byte(core.LineOf(rc.Trace, l)), &m)
+			fmt.Printf("MODEL-DRIFT module=HermesRun run=%s statement=%s line=%d model-phase=%s unexplained-event=%s\n", rc.P.Name, run.Violated, l, ph, eventSummary(m))
+			if firstDrift == nil {
+				firstDrift = map[string]interface{}{"run": rc.P.Name, "statement": run.Violated, "line": l, "phase": ph, "event": eventSummary(m), "arms": rc.P.Arms}
+			}
+		default:
+			c.Machineryf("%s: system-specification validation failed: exit=%d timedOut=%v\n%s", rc.P.Name, run.Exit, run.TimedOut, run.Tail(20))
+		}
+	})
+	sc := map[string]interface{}{"module": "HermesRun.tla via Trace_Sys.tla", "runs": len(sel), "conforming": conform, "drift": drift}
+	if firstDrift != nil {
+		sc["first_drift"] = firstDrift
+	}
+	c.Cover("system_spec_conformance", sc)
+}
+
+// designSystem explores the system specification HermesRun.tla exhaustively on the small calendar of MC_HermesRun for
+// one family of initial states (Cal: every start / end / annual day / covered years; Mgmt: every schedule of <= 2
+// events; Rot: every rotation of two entries with fixed dates or automatic windows) and runs the family's control, which
+// TLC must refute. The same module is bound to real runs by Trace_Sys (sysConformance).
+func designSystem(c *core.Ctx, family string) {
+	if c.Replay != "" {
+		return
+	}
+	cfg := "HermesRun_design_" + family + ".cfg"
+	if !c.Quick() && family != "Cal" {
+		cfg = "HermesRun_design_" + family + "_thorough.cfg"
+	}
+	r := c.TLC(core.TLCOpts{Module: "MC_HermesRun", Cfg: cfg, Kind: "design-system", Workers: 8, Timeout: 30 * time.Minute, Heap: "12g"})
+	if !r.OK() {
+		c.Machineryf("system specification (%s): exit=%d %s\n%s", cfg, r.Exit, r.Violated, r.Tail(15))
+	}
+	control := map[string][2]string{
+		"Cal": {"HermesRun_design_Cal_ascode.cfg", "S_Lockstep"},    // load errors dropped (the code, H5): the counters leave the calendar
+		"Rot": {"HermesRun_design_Rot_skip.cfg", "S_CropRecordOwn"}, // organic fertiliser at harvest: the skipped-entry branch overwrites a crop record
+	}
+	if ctl, ok := control[family]; ok {
+		u := c.TLC(core.TLCOpts{Module: "MC_HermesRun", Cfg: ctl[0], Kind: "design-control", Workers: 8, Timeout: 10 * time.Minute, Heap: "8g"})
+		c.Cover("system_spec_control_"+family+"_refuted", u.Violated == ctl[1])
+		if u.Violated != ctl[1] {
+			c.Machineryf("control failed: %s should violate %s (exit=%d violated=%q)", ctl[0], ctl[1], u.Exit, u.Violated)
+		}
+	}
 }
